@@ -34,8 +34,8 @@ def plans(ctx):
         ps = [("hand_mix2", "hand", None, None, 4, None), ("gen_lead1", "gen", None, None, 0, None)]
     else:
         ps = [("hand_all2", "hand", None, None, 40, None), ("hand_lead3", "hand", None, None, 10, None),
-              ("gen_lead2", "gen", None, None, 5, 15000), ("gen_all1", "gen", None, None, 5, 12000),
-              ("hand_sim", "hand", "num=1500", 7, 5, 30000), ("vol", "vol", None, None, 0, None)]
+              ("gen_lead2", "gen", None, None, 5, 12000), ("gen_all1", "gen", None, None, 5, 10000),
+              ("hand_sim", "hand", "num=400", 7, 5, 20000), ("vol", "vol", None, None, 0, None)]
     only = os.environ.get("VERIF_C15_PLANS")   # debugging aid: comma-separated plan labels
     return [p for p in ps if not only or p[0] in only.split(",")]
 
@@ -420,7 +420,7 @@ def run(ctx):
     if ctx.tier != "quick":
         writes_part(ctx, "gen", totals)
     ctx.cov.update(evaluations=totals["states"] * 2 + totals["writes"], distinct_nontrivial=totals["nontriv"],
-                   traces_validated_against_impl=totals["states"] + totals["writes"], exhaustive=(ctx.tier == "quick"),
+                   traces_validated_against_impl=totals["states"] + totals["writes"], exhaustive=False,
                    failing_states=totals["bad"], write_histories=totals["writes"], leading_hasLabel_states=totals["lead"],
                    rule="every program over the GripperTraversal alphabet up to the tier's length bound on GraphOf(world) for the 14 "
                         "hand-written worlds (missing/empty/dangling link fields, shared label, nested prefixes, repeated links, both "
